@@ -1,7 +1,98 @@
-(* C03 - property theorems (under construction). *)
-From CfdmV Require Import Common.Base Common.PySlice C03.Model.
+(* C03 - the property theorems, nothing else. *)
+From Coq Require Import Permutation.
+From CfdmV Require Import Common.Base Common.PySlice C03.Model C03.Lemmas.
+Open Scope Z_scope.
 
+(* Every position a Python slice selects on an axis of size len is a valid index. *)
 Theorem C03_slice_in_range :
-  forall len a b c l x, (0 <= len)%Z -> slice_positions len a b c = Some l -> In x l -> (0 <= x < len)%Z.
+  forall len a b c l x, 0 <= len -> slice_positions len a b c = Some l -> In x l -> 0 <= x < len.
 Proof. exact slice_positions_in_range. Qed.
 Print Assumptions C03_slice_in_range.
+
+(* The slice that reaches numpy / netCDF4 / h5py after dask's normalisation selects
+   exactly the positions of the Python slice the user wrote - for every size, start,
+   stop and step - unless a negative-step slice starts below -len (F03f, open). *)
+Theorem C03_dask_slice_agrees :
+  forall dim a b c, 0 <= dim -> start_below dim a c = false ->
+  slice_positions_impl dim a b c = slice_positions dim a b c.
+Proof. exact dask_slice_agrees. Qed.
+Print Assumptions C03_dask_slice_agrees.
+
+Theorem C03_dask_slice_refuted :
+  exists dim a b c, 0 <= dim /\ slice_positions_impl dim a b c <> slice_positions dim a b c.
+Proof. exact dask_slice_refuted. Qed.
+Print Assumptions C03_dask_slice_refuted.
+
+(* Whatever the slice, the implementation never addresses an element outside the axis. *)
+Theorem C03_slice_impl_in_range :
+  forall dim a b c l x, 0 <= dim -> slice_positions_impl dim a b c = Some l -> In x l -> 0 <= x < dim.
+Proof. exact slice_impl_in_range. Qed.
+Print Assumptions C03_slice_impl_in_range.
+
+(* A successful parse of an index expression (Ellipsis anywhere, trailing axes
+   omitted, any mixture of forms) yields exactly one index per axis: integer
+   indices therefore keep their dimension. *)
+Theorem C03_parse_one_index_per_axis :
+  forall shape idx ps, parse_indices shape idx = Ok ps -> length ps = length shape.
+Proof. exact parse_indices_length. Qed.
+Print Assumptions C03_parse_one_index_per_axis.
+
+(* An in-range integer index, of either sign, selects exactly that element. *)
+Theorem C03_int_index :
+  forall size i, - size <= i < size ->
+  positions size (int_to_slice i size) = Ok [Z.to_nat (norm size i)].
+Proof. exact int_index_positions. Qed.
+Print Assumptions C03_int_index.
+
+(* Orthogonal indexing: applying the per-axis selections one axis at a time gives
+   the same array in every order (the size heuristic of netcdf_indexer._index is
+   irrelevant), for every rank, shape and selection. *)
+Theorem C03_any_order :
+  forall ops ops', Permutation ops ops' -> forall sh a, shaped sh a -> ops_ok sh ops ->
+  take_all ops a = take_all ops' a.
+Proof. exact take_all_perm. Qed.
+Print Assumptions C03_any_order.
+
+(* Selecting along one axis changes the extent of that axis only. *)
+Theorem C03_take_shape :
+  forall sh a d pos, shaped sh a -> (d < length sh)%nat -> in_range (nth d sh 0%nat) pos ->
+  shaped (set_nth d (length pos) sh) (take d pos a).
+Proof. exact take_shaped. Qed.
+Print Assumptions C03_take_shape.
+
+(* Assignment through a list index: the pairwise strided-slice decomposition of
+   Data._set_subspace stores, for every in-range list of any length (unsorted,
+   negative, repeated), exactly what storing element k of the value at position
+   l_k for k = 0, 1, ... in order would store (a repeated position keeps the later
+   value). *)
+Theorem C03_pair_chunks :
+  forall n l vlen f q,
+  Forall (fun i => - n <= i < n) l -> vlen = length l -> vlen <> 1%nat ->
+  apply1 (chunk_prog n l 0 vlen) f q = apply1 (full_pairs n l 0) f q.
+Proof. exact pair_chunks_correct. Qed.
+Print Assumptions C03_pair_chunks.
+
+(* The decomposition as it was at the pinned commit lost the pair (3, 0) (F03a, fixed). *)
+Theorem C03_pair_chunks_old_refuted :
+  exists n l, Forall (fun i => - n <= i < n) l /\
+    flat_map (chunk_pairs (length l)) (pair_chunks_old n l 0) <> ref_pairs n l 0.
+Proof. exact pair_chunks_old_refuted. Qed.
+Print Assumptions C03_pair_chunks_old_refuted.
+
+(* Subspacing a field: a construct is diced iff it spans a data axis, and then
+   each of its axes receives the index of the matching data axis (a full slice
+   for an axis the data do not span). *)
+Theorem C03_field_dice :
+  forall data_axes ps caxes d, dice data_axes ps caxes = Some d ->
+  length d = length caxes /\
+  forall k ax, nth_error caxes k = Some ax ->
+    nth_error d k = Some (match index_of ax data_axes 0 with
+                          | Some i => nth i ps pall | None => pall end).
+Proof. exact dice_spec. Qed.
+Print Assumptions C03_field_dice.
+
+Theorem C03_field_dice_untouched :
+  forall data_axes ps caxes, dice data_axes ps caxes = None <->
+  forall ax, In ax caxes -> index_of ax data_axes 0 = None.
+Proof. exact dice_none. Qed.
+Print Assumptions C03_field_dice_untouched.
